@@ -1,0 +1,50 @@
+//go:build verif
+
+package app
+
+import (
+	"context"
+	"net"
+
+	"github.com/glebziz/fs_db/config"
+	"github.com/glebziz/fs_db/internal/di"
+)
+
+// VerifApp is the exported face of the server application for verification.
+type VerifApp struct {
+	a *app
+}
+
+// VerifNew builds the server application exactly as cmd/fs_db does.
+func VerifNew(ctx context.Context, cfg config.Config) (*VerifApp, error) {
+	a, err := New(ctx, cfg)
+	if err != nil {
+		return nil, err
+	}
+
+	return &VerifApp{a: a}, nil
+}
+
+// Run serves until ctx is cancelled (same as cmd/fs_db).
+func (v *VerifApp) Run(ctx context.Context) error { return v.a.Run(ctx) }
+
+// Serve serves on an existing listener until ctx is cancelled.
+func (v *VerifApp) Serve(ctx context.Context, lis net.Listener) error {
+	done := make(chan struct{})
+	go func() {
+		select {
+		case <-ctx.Done():
+			v.a.server.GracefulStop()
+		case <-done:
+		}
+	}()
+	defer close(done)
+
+	return v.a.server.Serve(lis)
+}
+
+// Stop stops the pool and closes the metadata store.
+func (v *VerifApp) Stop() error { return v.a.Stop() }
+
+// Container returns the DI container.
+func (v *VerifApp) Container() *di.Container { return v.a.container }
